@@ -20,6 +20,8 @@ CLAIMED = {
    text="Checks that a resolution is reported within group_interval+slack when its premises hold, that send_resolved:false never lists resolved alerts, that nothing is listed resolved while it fired during the whole possible flush window (or firing while resolved), that resolved-only first notifications do not occur, and that re-fired alerts are listed again (O1)."),
  "C06": dict(category="exploration", ref="5 (C06)", technique=SIM + "; 2-8 ingestion workers with holds in the group creation loop, maintenance sweep and flush; GET /alerts/groups probes",
    text="Every notification must be one group of one route of the reference router, complete with respect to members eligible during the whole flush window; group keys must be a stable function of (matcher path, group labels); GET /alerts/groups must show the model's partition; new and recreated groups must wait group_wait."),
+ "C09": dict(category="exploration", ref="5 (C09)", technique=SIM + "; 2-4 real instances whose silence broadcasts are recorded and re-delivered with loss/dup/delay/reorder/batching; crafted versions; full-state exchanges",
+   text="Per-merge safety (never newer->older, nothing past its retention accepted, newer unexpired delivered version wins, no fabricated content, re-merging known data changes nothing and broadcasts nothing, accepted changes are re-broadcast) on every replica, and convergence after two all-pairs full-state exchanges: every replica holds the newest accepted version of every id still within retention, and its Silencer agrees with the direct evaluation."),
  "C12": dict(category="exploration", ref="5 (C12)", technique=SIM + "; lifecycle state machine stepped with the requests actually sent, compared with GET /silences after every call",
    text="Sequences of create/edit/expire/GC/query over 1-4 silences placed around start, end and end+retention (+-1 ms, +-1 s), with invalid inputs, unknown ids, operator-only matcher edits, oversize replacements and optional count/size limits; ids, times, matchers, comment/creator, state-by-time, once-expired-never-active, presence until end+retention and absence after a GC past it are checked after every call."),
  "C13": dict(category="exploration", ref="5 (C13)", technique=SIM + "; contract model of ingestion (defaulting, overlap merge, visibility) carried as a set of allowed stored versions",
